@@ -458,6 +458,63 @@ def gen_cases(ctx):
             seen.add(l); out.append((c, l))
     return out
 
+def multi_use(ctx):
+    """"declared type parameters are converted and applied in order", when one external path is used more than once with
+    different parameters (inline, so the uses are unnamed types that assign_type may share) and when a parameter refers
+    back to the enclosing definition (so cycle breaking passes by)"""
+    import m2, irutil
+    rng = ctx.rng
+    STR, U32, BOOL = {"type": "string"}, {"type": "integer", "format": "uint32"}, {"type": "boolean"}
+    def x(path, params): return {"type": "array", "x-rust-type": {"crate": "std", "version": "1", "path": path, "parameters": params}}
+    def m(path, params): return {"type": "object", "x-rust-type": {"crate": "std", "version": "1", "path": path, "parameters": params}}
+    docs = []
+    pools = [STR, U32, BOOL, {"$ref": "#/definitions/Leaf"}]
+    for k in range(12 if ctx.tier == "thorough" else 4):
+        a, b = rng.sample(pools, 2)
+        holder = {"type": "object", "properties": {"first": x("std::collections::VecDeque", [a]), "second": x("std::collections::VecDeque", [b]),
+                                                    "third": m("std::collections::BTreeMap", [a, b]), "fourth": m("std::collections::BTreeMap", [b, a]),
+                                                    "items": {"type": "array", "items": x("std::collections::VecDeque", [b])}},
+                  "required": ["first", "second"]}
+        node = {"type": "object", "properties": {"kids": x("std::collections::VecDeque", [{"$ref": "#/definitions/Node"}]),
+                                                  "index": m("std::collections::BTreeMap", [STR, {"$ref": "#/definitions/Node"}]),
+                                                  "back": x("std::collections::VecDeque", [{"$ref": "#/definitions/Holder"}])}}
+        docs.append({"definitions": {"Holder": holder, "Node": node, "Leaf": {"type": "object", "properties": {"v": U32}}}})
+    reqs = [{"settings": {"crates": [{"name": "std", "version": "1.0.0", "rename": None}]}, "calls": [{"root": d}]} for d in docs]
+    ans = m2.tvh_ir(reqs)
+    fails = []; checked = 0
+    def kind_of(es, i, fuel=6):
+        e = es.get(i, {})
+        if e.get("kind") in ("struct", "enum", "newtype"): return "named:" + e["name"]
+        if e.get("kind") == "box": return "box:" + kind_of(es, e["id"], fuel - 1)
+        if e.get("kind") == "integer": return "integer:" + str(e.get("name") or e.get("type_name") or "")
+        return e.get("kind", "?")
+    def want(s_):
+        if "$ref" in s_: return "named:" + s_["$ref"].rsplit("/", 1)[1]
+        if s_.get("type") == "integer": return "integer:"
+        return {"string": "string", "boolean": "boolean"}[s_["type"]]
+    for rq, a in zip(reqs, ans):
+        if not (a.get("calls") and a["calls"][-1].startswith("ok")):
+            fails.append({"request": rq, "what": "ingestion failed: %r" % (a.get("calls"),)}); continue
+        es = irutil.entries(a["dump"]); nm = irutil.named(a["dump"]); doc = rq["calls"][0]["root"]
+        for dname in ("Holder", "Node"):
+            if dname not in nm: fails.append({"request": rq, "what": "no type " + dname}); continue
+            for p in nm[dname][1]["props"]:
+                sch = doc["definitions"][dname]["properties"].get(p["name"])
+                if sch is None: continue
+                if "x-rust-type" not in sch: sch = sch.get("items", {})
+                e = es.get(p["type_id"], {})
+                while e.get("kind") in ("option", "vec"): e = es.get(e["id"], {})
+                checked += 1
+                xr = sch["x-rust-type"]
+                if e.get("kind") != "native" or not e["type_name"].endswith(xr["path"].split("::", 1)[1]):
+                    fails.append({"request": rq, "what": "%s.%s: expected the external type %s, found %s" % (dname, p["name"], xr["path"], json.dumps(e)[:120])}); continue
+                got = [kind_of(es, i) for i in e["parameters"]]
+                exp = [want(q) for q in xr["parameters"]]
+                if len(got) != len(exp) or any(not g.startswith(w) for g, w in zip(got, exp)):
+                    fails.append({"request": rq, "what": "%s.%s: parameters of %s are %s, declared %s" % (dname, p["name"], xr["path"], got, exp)})
+    ctx.log("multi-use: %d documents, %d external uses checked, %d failures" % (len(docs), checked, len(fails)))
+    return {"fails": fails, "checked": checked}
+
 def run(ctx):
     findings = vlib.load_findings("C13")
     st = vlib.proof_stage(ctx, "C13", PROOF_TARGETS, PROOF_FILES, slices=["c13"])
@@ -481,6 +538,12 @@ def run(ctx):
         fails, settled = oracle(c, a)
         if not settled: unsettled += 1
         if fails: new_fail.append((c, a, fails))
+    # several uses in one document (implementation oracle on the IR dump): the same external path with different type
+    # parameters at two inline places, and parameters that refer back to the enclosing definition
+    mu = multi_use(ctx)
+    for f_ in mu["fails"][:3]:
+        vlib.violation(ctx, {"property": "C13", "kind": "implementation violates the property", "input": f_["request"],
+                             "failed_clauses": [f_["what"]], "broken_obligations": list(st["broken"])})
     broken = list(st["broken"])
     if disagreements:
         broken.append("correspondence c13: model and implementation disagree on %d inputs" % len(disagreements))
